@@ -11,10 +11,10 @@ import traceback
 
 from .. import common, describe, gen, refcodec, shard, walk
 from ..common import Result
-from ..streams import ReadOnlySource, WriteOnlySink
+from ..streams import ReadOnlySource, SpyBytesIO, WriteOnlySink
 
-SINK_KINDS = ("bytesio", "write_only", "socket_file", "pipe_file", "asyncio_stream_writer")
-SOURCE_KINDS = ("bytesio", "read_only", "socket_buffered_reader", "pipe_buffered_reader")
+SINK_KINDS = ("bytesio", "write_only", "spy_bytesio", "socket_file", "pipe_file", "asyncio_stream_writer")
+SOURCE_KINDS = ("bytesio", "read_only", "spy_bytesio", "socket_buffered_reader", "pipe_buffered_reader")
 
 
 def _payload_classes() -> list[type]:
@@ -53,6 +53,13 @@ def _write_all(kind: str, writers_and_values: list, prefix: bytes, suffix: bytes
             w(sink, v)
         sink.write(suffix)
         return sink.observed_bytes(), sink.observed_events(), sink.observed_calls()
+    if kind == "spy_bytesio":
+        spy = SpyBytesIO()
+        spy.write(prefix)
+        for w, v in writers_and_values:
+            w(spy, v)
+        spy.write(suffix)
+        return spy.observed_bytes(), list(spy.spy_events), -1
     if kind == "socket_file":
         a, b = socket.socketpair()
         chunks: list = []
@@ -146,6 +153,13 @@ def _read_all(kind: str, readers: list, data: bytes, skip: int, lengths: list[in
             values.append(r(src))
             positions.append(src.observed_position())
         return values, positions, src.observed_events()
+    if kind == "spy_bytesio":
+        spy = SpyBytesIO(data)
+        spy.read(skip)
+        for r in readers:
+            values.append(r(spy))
+            positions.append(spy.observed_position())
+        return values, positions, list(spy.spy_events)
     if kind == "socket_buffered_reader":
         a, b = socket.socketpair()
 
@@ -246,7 +260,7 @@ def _history(res: Result, h: int, payloads: list, loop, pairs_seen: set, distinc
             case = {"history": h, "messages": [walk.class_path(c) for c, _, _, _ in msgs], "trees": [t for _, _, t, _ in msgs],
                     "prefix": prefix, "suffix": suffix}
             # ---- writing to every sink kind
-            sink_kinds = SINK_KINDS if (h % 4 == 0 or res.tier == "thorough") else SINK_KINDS[:2] + (SINK_KINDS[2 + h % 3],)
+            sink_kinds = SINK_KINDS if (h % 4 == 0 or res.tier == "thorough") else SINK_KINDS[:3] + (SINK_KINDS[3 + h % 3],)
             outputs = {}
             for kind in sink_kinds:
                 if rng.random() < 0.3:
@@ -281,7 +295,7 @@ def _history(res: Result, h: int, payloads: list, loop, pairs_seen: set, distinc
                 for cls, _, _, _ in msgs:
                     pairs_seen.add((cls.__name__, "sink:" + kind))
             # ---- reading back from every source kind
-            source_kinds = SOURCE_KINDS if (h % 4 == 0 or res.tier == "thorough") else SOURCE_KINDS[:2] + (SOURCE_KINDS[2 + h % 2],)
+            source_kinds = SOURCE_KINDS if (h % 4 == 0 or res.tier == "thorough") else SOURCE_KINDS[:3] + (SOURCE_KINDS[3 + h % 2],)
             want_positions = []
             pos = len(prefix)
             for part in ref_parts:
@@ -315,7 +329,7 @@ def _history(res: Result, h: int, payloads: list, loop, pairs_seen: set, distinc
                     res.violation(f"source-position:{kind}",
                                   f"{kind} source: positions after each message {positions[:6]}.. differ from the encodings' boundaries {want_positions[:6]}..",
                                   dict(case, source=kind, stream=expected, positions=positions, expected_positions=want_positions))
-                if kind == "read_only" and events:
+                if kind in ("read_only", "spy_bytesio") and events:
                     res.violation(f"source-foreign-access:{events[0]}",
                                   f"decoder touched the source through something other than read(n>=0): {events[:5]}",
                                   dict(case, source=kind, events=events))
